@@ -5,7 +5,7 @@ From Coq Require Import ZArith List Bool Arith Lia.
 From Romea Require Import WrapGridModel WrapGridProofs WrapGridImp WrapGridImpFacts.
 From Romea.gen Require Import SrcWrapGrid.
 Import ListNotations.
-Open Scope Z_scope.
+Local Open Scope Z_scope.
 
 Ltac sg := unfold get, set, set_buf in *; cbn [s_var s_buf var_eqb Nat.eqb] in *.
 Ltac gs := repeat (rewrite get_set_same || rewrite get_set_other by reflexivity).
@@ -943,6 +943,66 @@ Proof.
   destruct (Z3 g2 e kx ky kz Hv2 Hd2 (fits_shape _ _ Sh2 (fits_shape _ _ Sh1 Hf)) Hk s2 S2) as (s3 & E3 & S3).
   exists s3. rewrite split_3d, exec_seq, E1. cbn [bind]. rewrite exec_seq, E2. cbn [bind]. split; [exact E3|].
   unfold translate. cbn zeta. rewrite Hd. destruct S3 as (F3 & _ & B3). split; [exact F3|exact B3].
+Qed.
+
+(* ================================================================== operator()(cellIndexes): the buffer_ index *)
+Lemma cell_index_2d (g : wgrid) (s : state) x y :
+  valid g -> g_dim3 g = false -> fits g -> frame g s -> (x < g_nx g)%nat -> (y < g_ny g)%nat ->
+  get s (VArg 0) = Z.of_nat x -> get s (VArg 1) = Z.of_nat y ->
+  eval src_cell_index_2d s = Some (Z.of_nat (lin g (x, y, 0%nat))) /\
+  eval src_cell_index_const_2d s = Some (Z.of_nat (lin g (x, y, 0%nat))).
+Proof.
+  intros Hv Hd Hf F Lx Ly A0 A1. unfold frame in F. rewrite Hd in F.
+  assert (E : eval src_linear_index_2d (set (set s (VArg 0) (get s (VArg 0))) (VArg 1) (get s (VArg 1)))
+              = Some (Z.of_nat (lin g (x, y, 0%nat)))) by (apply linear_index_2d; assumption).
+  split; exact E.
+Qed.
+
+Lemma cell_index_3d (g : wgrid) (s : state) x y z :
+  valid g -> g_dim3 g = true -> fits g -> frame g s -> (x < g_nx g)%nat -> (y < g_ny g)%nat -> (z < g_nz g)%nat ->
+  get s (VArg 0) = Z.of_nat x -> get s (VArg 1) = Z.of_nat y -> get s (VArg 2) = Z.of_nat z ->
+  eval src_cell_index_3d s = Some (Z.of_nat (lin g (x, y, z))) /\
+  eval src_cell_index_const_3d s = Some (Z.of_nat (lin g (x, y, z))).
+Proof.
+  intros Hv Hd Hf F Lx Ly Lz A0 A1 A2. unfold frame in F. rewrite Hd in F.
+  assert (E : eval src_linear_index_3d (set (set (set s (VArg 0) (get s (VArg 0))) (VArg 1) (get s (VArg 1))) (VArg 2) (get s (VArg 2)))
+              = Some (Z.of_nat (lin g (x, y, z)))) by (apply linear_index_3d; assumption).
+  split; exact E.
+Qed.
+
+(* reading / writing buffer_ at that index is the model's g_read / g_write *)
+Lemma cell_access (g : wgrid) (s : state) (i : idx) : represents s g -> in_window g i = true ->
+  nth_error (s_buf s) (lin g i) = g_read g i /\
+  forall v, represents (set_buf s (set_nth (lin g i) v (s_buf s))) (g_write g i v).
+Proof.
+  intros (F & B) Hw. unfold g_read, g_write. rewrite Hw, B. split; [reflexivity|]. intros v. split; [|reflexivity].
+  unfold frame, frame3, frame2 in *. cbn [with_buf g_dim3 g_nx g_ny g_nz g_ox g_oy g_oz]. exact F.
+Qed.
+
+(* ================================================================== constructor: Grid::init, then the member initialisers *)
+Lemma ctor_2d (e : V) (s : state) nx ny nz (d : V) :
+  (0 < nx)%nat -> (0 < ny)%nat -> Z.of_nat nx < 2 ^ 31 -> Z.of_nat ny < 2 ^ 31 ->
+  get s (VArg 0) = Z.of_nat nx -> get s (VArg 1) = Z.of_nat ny ->
+  exists s', exec e (SSeq src_init_2d src_ctor_2d) s = Some s' /\ frame (g_init false nx ny nz d) s'.
+Proof.
+  intros Px Py Bx By A0 A1. eexists. split; [reflexivity|].
+  assert (T : 2 ^ 31 < two64) by reflexivity.
+  unfold frame, frame2. cbn [g_init g_dim3 g_nx g_ny g_nz g_ox g_oy g_oz]. gs. cbn [eval norm binop]. gs.
+  rewrite A0, A1. rewrite !(Z.mod_small 1), !(Z.mod_small 0) by (unfold two64; lia).
+  rewrite !Z.mod_small by lia. repeat split; reflexivity.
+Qed.
+
+Lemma ctor_3d (e : V) (s : state) nx ny nz (d : V) :
+  (0 < nx)%nat -> (0 < ny)%nat -> (0 < nz)%nat -> Z.of_nat nx < 2 ^ 31 -> Z.of_nat ny < 2 ^ 31 -> Z.of_nat nz < 2 ^ 31 ->
+  get s (VArg 0) = Z.of_nat nx -> get s (VArg 1) = Z.of_nat ny -> get s (VArg 2) = Z.of_nat nz ->
+  exists s', exec e (SSeq src_init_3d src_ctor_3d) s = Some s' /\ frame (g_init true nx ny nz d) s'.
+Proof.
+  intros Px Py Pz Bx By Bz A0 A1 A2. eexists. split; [reflexivity|].
+  assert (T : 2 ^ 62 < two64) by reflexivity.
+  assert (M : 0 <= Z.of_nat ny * Z.of_nat nx < 2 ^ 62) by nia.
+  unfold frame, frame3, frame2. cbn [g_init g_dim3 g_nx g_ny g_nz g_ox g_oy g_oz]. gs. cbn [eval norm binop]. gs.
+  rewrite A0, A1, A2. rewrite !(Z.mod_small 1), !(Z.mod_small 0) by (unfold two64; lia).
+  rewrite !Z.mod_small by lia. repeat split; reflexivity.
 Qed.
 
 End Tie.
